@@ -568,4 +568,131 @@ def scoreCall (meth : Method) (n : Nat) (desc : List Nat) (value : Option (List 
 
 end whole
 
+/-! ## 5. reuse sessions (round 4): what survives a call
+
+A fitter / prediction is handed *objects* — model objects (whose `rdm` array is the very array
+of the RDMs object the caller built them from), the training RDMs (passed on without a copy when
+no `pattern_idx` is given), a `sigma_k` array — and lives in modules that could keep things
+between calls.  A *session* is a sequence of calls (and of edits the caller makes to its own
+objects between them: new numbers written into the data, `RDMs.append`, `sigma_k` refilled) in
+one process.  The state is the content of those objects plus whatever the modules / objects keep
+on the side (`σ`, arbitrary).  Whether the code has a statement that writes into an argument or
+into `self`, or a place to keep something between calls, is read off today's source text:
+leaves `Rsa.Gen.C08.inputWrites`, `Rsa.Gen.C08.moduleState` (counts; `harness/leaves/C08.py`). -/
+
+section sessions
+variable {α : Type} [Add α] [Sub α] [Mul α] [Div α] [Neg α] [Zero α] [One α] [NatCast α]
+  [LT α] [DecidableLT α] [LE α] [DecidableLE α] [Max α] [Min α] [HasSqrt α]
+
+/-- content of the objects of a session: the model objects (slot ↦ model; two slots may hold
+    models of the same class and name), which entries are present (the others are missing in
+    every RDM), the label descriptor the pattern indices refer to, the training RDMs, `sigma_k` -/
+structure FitArgs (α : Type) where
+  models : List (Model α)
+  present : List Bool
+  desc : List Nat
+  data : List (List (Option α))
+  sigma : SigmaK α
+
+/-- a stored vector as the fitters see it (`nan` where the entry is missing) -/
+def maskRow (present : List Bool) (r : List α) : List (Option α) :=
+  List.zipWith (fun b x => if b then some x else none) present r
+
+/-- `model.rdm_obj.get_vectors()` of the model in a slot -/
+def FitArgs.basis (a : FitArgs α) (slot : Nat) : List (List (Option α)) :=
+  match a.models[slot]? with
+  | some M => M.obj.map (maskRow a.present)
+  | none => []
+
+def FitArgs.nCond (a : FitArgs α) (slot : Nat) : Nat :=
+  match a.models[slot]? with
+  | some M => M.nCond
+  | none => 0
+
+/-- what a call returns -/
+inductive FitRes (α : Type) where
+  | theta (t : Option (List α))
+  | thetaNN (t : Option (List α × Bool))
+  | score (s : Option α)
+  | vec (v : Option (List α))
+  | rdm (r : Option (List (List α) × Desc))
+  | params (t : List α)
+  deriving DecidableEq
+
+/-- one call of a session; everything that is not content of a live object (criterion, pattern
+    indices, switches, and for the searching fitters the results of the external searches) is
+    part of the call -/
+inductive FitCall (α : Type) where
+  /-- `fit_regress(model, data, method, pattern_idx, …, sigma_k, normalize)` -/
+  | regress (slot : Nat) (meth : Method) (value : Option (List Nat)) (norm : Bool)
+  /-- `fit_regress_nn(…)` -/
+  | regressNN (eps : α) (slot : Nat) (meth : Method) (value : Option (List Nat)) (norm : Bool)
+  /-- `-_loss(theta, model, data, …)` with ridge weight 0: what `fit_select`, `fit_interpolate` and
+      the optimising fitters evaluate -/
+  | score (slot : Nat) (meth : Method) (value : Option (List Nat)) (θ : List α)
+  /-- `model.predict(theta)` / `model.predict_rdm(theta)` -/
+  | predict (slot : Nat) (p : Param α)
+  | predictRdm (slot : Nat) (p : Param α)
+  /-- `model.fit(data, …)` of a `ModelFixed` (`fit_mock`) -/
+  | mock (slot : Nat)
+  /-- any other function of the content (a searching fitter with its search results fixed) -/
+  | other (f : FitArgs α → FitRes α)
+
+/-- the stand-alone call on objects with content `a` -/
+def FitCall.value : FitCall α → FitArgs α → FitRes α
+  | .regress slot meth value norm, a =>
+    .theta (fitRegressCall meth (a.nCond slot) a.desc value (a.basis slot) a.data a.sigma norm)
+  | .regressNN eps slot meth value norm, a =>
+    .thetaNN (fitRegressNNCall eps meth (a.nCond slot) a.desc value (a.basis slot) a.data a.sigma norm)
+  | .score slot meth value θ, a =>
+    .score (scoreCall meth (a.nCond slot) a.desc value (a.basis slot) a.data a.sigma θ)
+  | .predict slot p, a => .vec ((a.models[slot]?).bind (fun M => Rsa.Fit.predictVec M p))
+  | .predictRdm slot p, a => .rdm ((a.models[slot]?).bind (fun M => Rsa.Fit.predictRdm M p))
+  | .mock slot, a => .params (match a.models[slot]? with | some M => fitMock M | none => [])
+  | .other f, a => f a
+
+/-- one step of a session: a call, or the caller changing its own objects -/
+inductive FitStep (α : Type) where
+  | call (c : FitCall α)
+  | edit (f : FitArgs α → FitArgs α)
+
+/-- everything a tree *with* write statements / kept state could do: `stale` = the content a call
+    actually computes from (a memoised `V` of an earlier `sigma_k`, centred vectors left by an
+    earlier call, a cache on the object), `remember` = how the kept state moves on, `scribble` =
+    what the write statements leave in the arguments.  All three are arbitrary. -/
+structure Hidden (σ α : Type) where
+  stale : σ → FitArgs α → FitArgs α
+  remember : σ → FitArgs α → σ
+  scribble : FitArgs α → FitArgs α
+
+/-- one call as the code under check performs it: kept state is consulted and updated iff the
+    source has a place to keep it (`moduleState ≠ 0`), the arguments are written iff the source has
+    a statement that stores into them (`inputWrites ≠ 0`) -/
+def stepCall {σ : Type} (h : Hidden σ α) (c : FitCall α) (st : σ × FitArgs α) :
+    FitRes α × (σ × FitArgs α) :=
+  let seen := if Rsa.Gen.C08.moduleState = 0 then st.2 else h.stale st.1 st.2
+  (c.value seen,
+    (if Rsa.Gen.C08.moduleState = 0 then st.1 else h.remember st.1 st.2,
+     if Rsa.Gen.C08.inputWrites = 0 then st.2 else h.scribble st.2))
+
+/-- a session in one process: every step sees what the earlier ones left -/
+def runSession {σ : Type} (h : Hidden σ α) :
+    List (FitStep α) → σ × FitArgs α → List (FitRes α) × (σ × FitArgs α)
+  | [], st => ([], st)
+  | .call c :: rest, st =>
+    let r := stepCall h c st
+    let t := runSession h rest r.2
+    (r.1 :: t.1, t.2)
+  | .edit f :: rest, st => runSession h rest (st.1, f st.2)
+
+/-- specification: every call stand-alone on the content the *caller* has established so far -/
+def specSession : List (FitStep α) → FitArgs α → List (FitRes α) × FitArgs α
+  | [], a => ([], a)
+  | .call c :: rest, a =>
+    let t := specSession rest a
+    (c.value a :: t.1, t.2)
+  | .edit f :: rest, a => specSession rest (f a)
+
+end sessions
+
 end Rsa.Fit
